@@ -303,9 +303,55 @@ def class_level_fallbacks(ctx, report, RULE='C13.R6'):
     report.floor(RULE, 15, 'mutable class level containers')
 
 
+def mutable_parameter_defaults(ctx, report, RULE='C13.R7'):
+    """A default value is evaluated once, when the function is defined: a list, dict, set or bytearray written as the default of a
+    parameter is one object for all calls.  It is harmless only while no call changes it or hands it on; every such default of the
+    package is looked at: the parameter must not be mutated (method call that changes it, item or augmented assignment), returned,
+    stored in an attribute, or passed on to a call - i.e. it may only be read."""
+    report.rule(RULE, 'no parameter default is a mutable container that the function changes or hands on (one object for all calls)')
+    n = 0
+    MUTATORS = ('append', 'extend', 'insert', 'pop', 'remove', 'clear', 'sort', 'reverse', 'update', 'setdefault', 'add', 'discard', 'popitem')
+    for f in ctx.model.functions():
+        if f.module.external:
+            continue
+        a = f.node.args
+        pos = a.posonlyargs + a.args
+        pairs = list(zip(pos[len(pos) - len(a.defaults):], a.defaults)) + [(p, d) for p, d in zip(a.kwonlyargs, a.kw_defaults) if d is not None]
+        n += len(pos) + len(a.kwonlyargs)
+        for p, d in pairs:
+            if not is_mutable_container(d):
+                continue
+            name = p.arg
+            how = None
+            for x in ast.walk(f.node):
+                if isinstance(x, ast.Call) and isinstance(x.func, ast.Attribute) and isinstance(x.func.value, ast.Name) and x.func.value.id == name and \
+                        x.func.attr in MUTATORS:
+                    how = 'changed by .%s()' % x.func.attr
+                elif isinstance(x, (ast.Subscript, ast.Attribute)) and isinstance(x.ctx, (ast.Store, ast.Del)) and isinstance(x.value, ast.Name) and x.value.id == name:
+                    how = 'changed by an item assignment'
+                elif isinstance(x, ast.AugAssign) and isinstance(x.target, ast.Name) and x.target.id == name:
+                    how = 'changed by an augmented assignment'
+                elif isinstance(x, ast.Return) and x.value is not None and any(isinstance(y, ast.Name) and y.id == name for y in ast.walk(x.value)):
+                    how = 'returned'
+                elif isinstance(x, ast.Assign) and any(isinstance(y, ast.Name) and y.id == name for y in ast.walk(x.value)) and \
+                        any(isinstance(t, (ast.Attribute, ast.Subscript)) for t in x.targets):
+                    how = 'stored'
+                elif isinstance(x, ast.Call) and any(isinstance(y, ast.Name) and y.id == name for arg in list(x.args) + [k.value for k in x.keywords] for y in [arg]):
+                    how = how or 'handed on to %s()' % ast.unparse(x.func)[:40]
+                if how and not how.startswith('handed'):
+                    break
+            if how:
+                report.add(RULE, '%s@default[%s]' % (f.construct, name),
+                           'the default %s of parameter %s is one object for every call and is %s: what one call leaves in it (or in the object built '
+                           'from it) shows up in the next' % (ast.unparse(d)[:30], name, how))
+    report.count(RULE, n)
+    report.floor(RULE, 1500, 'parameters of the package')
+
+
 def check(ctx, report):
     model, it = ctx.model, ctx.interp
     class_level_fallbacks(ctx, report)
+    mutable_parameter_defaults(ctx, report)
     report.rule('C13.R1', 'observers do not write to self, to class level state or to their arguments')
     report.rule('C13.R2', 'no attr.ib default shares a mutable object between instances')
     report.rule('C13.R3', 'the parsed object does not alias the input buffer')
